@@ -245,6 +245,15 @@ func c07Units(thorough bool) []c07Unit {
 	for b := 0; b < 3; b++ {
 		us = append(us, c07Unit{Name: fmt.Sprintf("n=3 t=2, keyper %d Byzantine, scripts within %d deviations, default schedule", b, c07QuickBound), N: 3, T: 2, L: L, Byz: []int{b}, Mode: "adversary", Bound: c07QuickBound, Big: true})
 	}
+	// all honest, default placement, every single step-order deviation
+	nperm := 6
+	last := int64(shmx.VoteBlock) + 3*L + 8
+	for h := int64(1); h <= last; h++ {
+		for pi := 1; pi < nperm; pi++ {
+			us = append(us, c07Unit{Name: fmt.Sprintf("n=3 t=2, all honest, block %d step order %d", h, pi), N: 3, T: 2, L: L, Mode: "delays-bounded", Bound: 0,
+				Sched: shmx.Schedule{Order: map[int64]int{h: pi}}})
+		}
+	}
 	if !thorough {
 		return us
 	}
@@ -257,26 +266,15 @@ func c07Units(thorough bool) []c07Unit {
 		us = append(us, c07Unit{Name: fmt.Sprintf("n=3 t=2, keyper %d Byzantine, full script product, default schedule", b), N: 3, T: 2, L: L, Byz: []int{b}, Mode: "product", Bound: -1, Big: true})
 	}
 	// scripts within the bound x one schedule deviation
-	nperm := 6
-	last := int64(shmx.VoteBlock) + 3*L + 8
-	for b := -1; b < 3; b++ {
-		var byz []int
+	for b := 0; b < 3; b++ {
+		byz := []int{b}
 		mode := "adversary"
-		name := "all honest"
-		if b >= 0 {
-			byz = []int{b}
-			name = fmt.Sprintf("keyper %d Byzantine (scripts within %d deviations)", b, c07ThoroughSchedBound)
-		} else {
-			mode = "delays-bounded" // with bound 0: the default placement only
-		}
+		name := fmt.Sprintf("keyper %d Byzantine (scripts within %d deviations)", b, c07ThoroughSchedBound)
 		for _, h := range honestOf(3, byz) {
 			for p := 0; p < 3; p++ {
 				for d := 1; d <= int(L-3); d++ {
 					var dd [3]int
 					dd[p] = d
-					if b < 0 {
-						continue // covered by the all-honest units above
-					}
 					us = append(us, c07Unit{Name: fmt.Sprintf("n=3 t=2, %s, keyper %d pauses %d at phase %d", name, h, d, p+1), N: 3, T: 2, L: L, Byz: byz, Mode: mode, Bound: c07ThoroughSchedBound,
 						Sched: shmx.Schedule{Delay: map[int][3]int{h: dd}}})
 				}
@@ -284,11 +282,7 @@ func c07Units(thorough bool) []c07Unit {
 		}
 		for h := int64(1); h <= last; h++ {
 			for pi := 1; pi < nperm; pi++ {
-				bound := c07ThoroughSchedBound
-				if b < 0 {
-					bound = 0
-				}
-				us = append(us, c07Unit{Name: fmt.Sprintf("n=3 t=2, %s, block %d step order %d", name, h, pi), N: 3, T: 2, L: L, Byz: byz, Mode: mode, Bound: bound,
+				us = append(us, c07Unit{Name: fmt.Sprintf("n=3 t=2, %s, block %d step order %d", name, h, pi), N: 3, T: 2, L: L, Byz: byz, Mode: mode, Bound: c07ThoroughSchedBound,
 					Sched: shmx.Schedule{Order: map[int64]int{h: pi}}})
 			}
 		}
@@ -337,7 +331,6 @@ func c07RunUnit(c *report.Ctx, u c07Unit, shard, nshards int) bool {
 		},
 	}
 	dfs.Explore()
-	c.Stats.Count("dfs_max_depth", 0)
 	for _, f := range dfs.Failures {
 		c.Violation(f.Signature, fmt.Sprintf("[%s]\n%s\nchoices: %v", u.Name, f.Message, f.Labels), c07Replay{Unit: u, Choices: f.Choices, Labels: f.Labels})
 	}
@@ -352,7 +345,7 @@ func c07() *report.Check {
 	return &report.Check{
 		Level: "model_checking",
 		Rule: "stateless deviation-bounded DFS over complete key generations through fakeshm (real app.ShutterApp, real smobserver.SyncAppWithDB/ShuttermintState, real KeyperCore.handleOnChainChanges, real fx.SendShutterMessages + RPCMessageSender per honest keyper on minipg; scripted Byzantine signers). " +
-			"quick: n=3,t=2, every Byzantine index, all scripts within 2 deviations from honest behaviour x default schedule; all-honest runs with every pause placement in {0,1} per (keyper, phase) (2^9). " +
+			"quick: n=3,t=2, every Byzantine index, all scripts within 2 deviations from honest behaviour x default schedule; all-honest runs with every pause placement in {0,1} per (keyper, phase) (2^9) and, at the default placement, every single step-order deviation (any of the 5 non-identity orders in any one block). " +
 			"thorough adds: the full script product (commitment 5 x eval 3^2 x false accusation 3 x apology 3^2 x timing 2^4, duplicates with an unsent message class skipped) per Byzantine index x default schedule; scripts within 2 deviations x every single schedule deviation (pause 1..2 of one honest keyper at one phase; any of the 5 non-identity step orders in any one block); all-honest pauses 0..2 within 2 deviations, phase length 4; n=4 (t=3 one Byzantine, t=2 two Byzantine) within 2 deviations. " +
 			"Oracle per eon: equal PublicKey/PublicKeyShares among successful honest keypers, g2^secret == own public share, every t-subset interpolates to a key passing VerifyEpochSecretKey and decrypting a message encrypted to the eon key, DKG result votes on chain == rows, published eon key == result; all-honest in-phase => all succeed. Classes = who succeeded / failed with which error / which dealers are in the key (qualified set).",
 		Assumptions: []string{
